@@ -41,9 +41,22 @@ statement about the ledger model's reachable states — the 28 theorems of the f
 Side condition `FitsAlong`: the amounts minted fit under 2¹²⁷ together with the supply (the ledger model has no 256-bit
 range checks; `rate_one_refinement_needs_room_witness`: without room the staking model's `Delegate` overflows where the
 ledger model succeeds).
+
+# 3. Stake tracking along histories
+`staking_invariant_along_histories`: the share invariant (`StkInv`: the delegations of a validator's distinct accounts
+fit into its shares; no negative tokens / shares) holds along EVERY history — slashes included — so the general refresh
+bound applies after any history (`epoch_bound_after_any_history`).  Between epochs: `delegate_moves_stake` /
+`undelegate_moves_stake` — a delegation / undelegation moves the account's exact stake by exactly the risk-adjusted value
+of the lock at the multiplier in force, up to the share rounding of part 1; `history_is_path` — every call of a
+slash-free history reaches the staking module through at most `stakeCalls` mint / burn calls (delegate, undelegate,
+add-to-lock: 1; undelegate-and-unbond: 2; an epoch: one per account); `stake_tracks_calls_along_history_partial` — the
+induction: along the history the stake follows the nominal amounts of those calls up to `(1 + ρ)` tokens per CALL on its
+validator since the start (the last refresh).  At exchange rate one the full history-level statement against the exact
+value of the locks is `drift_between_epochs_staking_partial` (part 2).
 -/
 import OsmoVerif.Proofs.SuperfluidRefreshEpoch
 import OsmoVerif.Proofs.SuperfluidRefineRun
+import OsmoVerif.Proofs.SuperfluidRefreshPath
 import OsmoVerif.Props.C11
 
 namespace OsmoVerif.Props.C11Refresh
@@ -188,7 +201,8 @@ def wR : SState := wRate 7 (5 * P18) (2 * P18) P18 5
 truncation leak), then (0,0) (topped up by 2). -/
 def ordR : List (AccKey × Nat) := [((1, 0), 2), ((0, 0), 1)]
 
-theorem wR_shareInv (T S d0 d1 x0 : Int) (h0 : 0 ≤ d0) (h1 : 0 ≤ d1) (hs : d0 + d1 ≤ S) : ShareInvV (wRate T S d0 d1 x0).k 0 := by
+theorem wR_shareInv (T S d0 d1 x0 : Int) (h0 : 0 ≤ d0) (h1 : 0 ≤ d1) (hs : d0 + d1 ≤ S) (v : Nat := 0) :
+    ShareInvV (wRate T S d0 d1 x0).k v := by
   refine shareInvV_of_support [(0, 0), (1, 0)] ?_ ?_ ?_
   · intro x hx
     simp only [List.mem_cons, List.not_mem_nil, or_false] at hx
@@ -403,5 +417,179 @@ theorem rate_one_refinement_needs_room_witness :
     errOf (applyOpS (runS wS0 [.base (.lock 0 0 (2 ^ 250) 100 true)]) (.base (.delegate 0 1 0))) = some .other ∧
     okS (applyOp (absL (runS wS0 [.base (.lock 0 0 (2 ^ 250) 100 true)])) (.delegate 0 1 0)) = true := by
   decide +kernel
+
+
+/-! ## 3. stake tracking along histories -/
+
+/-- **the staking-state invariant holds along every history** — slashes, epochs in any account order, any exchange
+rate: for every validator the delegations of its distinct intermediary accounts together hold at most its shares, no
+delegation and no validator is negative. -/
+theorem staking_invariant_along_histories {s₀ : SState} (hI : Inv s₀.b) (h : StkInv s₀.k) (ops : List OpS) :
+    StkInv (runS s₀ ops).k := stkInv_runS ops s₀ hI h
+
+/-- **the general refresh bound after ANY history** (slashes included): the state reached by any history satisfies the
+share invariant the bound needs, so `epoch_refresh_bound`'s conclusion holds for the epoch that follows — `e` being the
+expected amount at the new multipliers (of the locks as the slashes left them). -/
+theorem epoch_bound_after_any_history {s₀ : SState} (hI : Inv s₀.b) (h : StkInv s₀.k) (ops : List OpS)
+    {s' : SState} {ups : List (Nat × Int × Int × Bool)} {order : List AccKey} {b1 : State} {k : AccKey} {e p q m : Int}
+    (hc : epochOS (runS s₀ ops) ups order = .ok s') (h1 : updateMults (runS s₀ ops).b ups = .ok (b1, true))
+    (hnd : order.Nodup) (hk : k ∈ order) (hv : k.2 ∈ b1.validators) (hq : 0 < q)
+    (hH : (refreshStates { (runS s₀ ops) with b := b1 } (order.map fun k => (k, 0))).all (healthyB p q m k.2) = true)
+    (he : expectedDelegation b1 k = .ok e) (he0 : 0 ≤ e) (hem : e ≤ m) :
+    (e = 0 ∧ (∃ sj, sj ∈ refreshStates { (runS s₀ ops) with b := b1 } (order.map fun k => (k, 0)) ∧ BurnRejected sj k e) ∧
+      1 / 2 - uQ / 2 - (burnCount k.2 { (runS s₀ ops) with b := b1 } (order.map fun k => (k, 0)) : ℚ) * (uQ / 2) ≤ stakeQ s'.k k) ∨
+    (-(1 / 2 + uQ) - (p : ℚ) / q - (burnCount k.2 { (runS s₀ ops) with b := b1 } (order.map fun k => (k, 0)) : ℚ) * (uQ / 2)
+        < stakeQ s'.k k - e ∧
+      stakeQ s'.k k - e < 1 / 2 + uQ + (order.length : ℚ) * ((p : ℚ) / q) +
+        (burnCount k.2 { (runS s₀ ops) with b := b1 } (order.map fun k => (k, 0)) : ℚ)) :=
+  epochOS_refresh_bound hc h1 hnd hk hv ((staking_invariant_along_histories hI h ops).1 k.2) hq hH he he0 hem
+
+/-- **a delegation moves the account's stake by exactly the risk-adjusted value of the lock at the multiplier in
+force** (`amt = GetSuperfluidOSMOTokens(denom, lock amount)`), short by less than `T/S` (the issued shares are floored). -/
+theorem delegate_moves_stake {s s' : SState} {snd id v : Nat} (hI : ShareInvV s.k v)
+    (hT : 0 < (s.k.val v).tokens) (hS : 0 < (s.k.val v).shares) (hc : superfluidDelegateS s snd id v = .ok s') :
+    ∃ l amt, s.b.locks id = some l ∧ osmoTokens s.b l.denom l.amount = .ok amt ∧
+      stakeQ s.k (l.denom, v) + amt - rateQ s.k v < stakeQ s'.k (l.denom, v) ∧
+      stakeQ s'.k (l.denom, v) ≤ stakeQ s.k (l.denom, v) + amt := by
+  obtain ⟨l, b3, amt, hl, hos, hp⟩ := kpath_delegate hc
+  cases hp with
+  | step b0 ha hrest =>
+    cases hrest with
+    | done _ b' =>
+      have hm : mintS { s with b := b3 } amt (l.denom, v) = .ok _ := ha
+      obtain ⟨m1, m2⟩ := mintS_stakeQ_own (s := { s with b := b3 }) (key := (l.denom, v)) hT hS
+        (hI.1 (l.denom, v) rfl) (hI.le (key := (l.denom, v))) hm
+      exact ⟨l, amt, hl, hos, m1, m2⟩
+
+/-- **an undelegation moves the account's stake down by exactly the risk-adjusted value of the lock at the multiplier
+in force** — except that less than `T/S` more stays (the shares to remove are floored) plus the account's fraction of the
+up-to-one token the truncated payout leaves with the validator; without a delegation record nothing is burnt. -/
+theorem undelegate_moves_stake {s s' : SState} {snd id : Nat} (hc : superfluidUndelegateS s snd id = .ok s') :
+    ∃ l key amt, s.b.locks id = some l ∧ s.b.conns id = some key ∧ osmoTokens s.b key.1 l.amount = .ok amt ∧
+      ((s.k.dsh key = none ∧ s'.k = s.k) ∨
+       (ShareInvV s.k key.2 → 0 < (s.k.val key.2).tokens → 0 < (s.k.val key.2).shares →
+        stakeQ s.k key - amt - uQ / 2 ≤ stakeQ s'.k key ∧
+        stakeQ s'.k key < stakeQ s.k key - amt + rateQ s.k key.2 + fracQ s'.k key ∧ fracQ s'.k key ≤ 1)) := by
+  obtain ⟨l, key, b2, amt, hl, hk, hos, hp⟩ := kpath_undelegate hc
+  refine ⟨l, key, amt, hl, hk, hos, ?_⟩
+  cases hp with
+  | step b0 ha hrest =>
+    cases hrest with
+    | done _ b' =>
+      have hb : burnS { s with b := b2 } amt key = .ok _ := ha
+      cases hd : s.k.dsh key with
+      | none =>
+        rcases (burnS_ok hb).2 with ⟨_, hs'⟩ | ⟨d0, _, _, _, _, hd0, _⟩
+        · subst hs'; exact Or.inl ⟨rfl, rfl⟩
+        · have : ({ s with b := b2 } : SState).k.dsh key = s.k.dsh key := rfl
+          rw [this, hd] at hd0; cases hd0
+      | some d =>
+        refine Or.inr ?_
+        intro hI hT hS
+        have hd0 : 0 ≤ d := by have := hI.1 key rfl; rw [shOf_of_some hd] at this; exact this
+        have hdS : d ≤ (s.k.val key.2).shares := by have := hI.le (key := key); rw [shOf_of_some hd] at this; exact this
+        obtain ⟨b1, b2', _, b4, b5, _⟩ := burnS_stakeQ_own (s := { s with b := b2 }) hT hS hd hd0 hdS hb
+        exact ⟨b1, b2', (fracQ_bounds b4 b5).2⟩
+
+/-- **every slash-free history is a path of staking calls**: between `s₀` and `runS s₀ ops` the staking state changed
+only through a sequence `evs` of `mintOsmoTokensAndDelegate` / `forceUndelegateAndBurnOsmoTokens` calls (made in the
+states `sts`), at most `stakeCallsAlong` of them: one per delegate / undelegate / add-to-lock, two per undelegate-and-
+unbond, one per account and epoch — a failed call makes none. -/
+theorem history_is_path {s₀ : SState} (ops : List OpS) (hns : ∀ op, op ∈ ops → isSlashOp op = false) :
+    ∃ evs sts, KPath s₀ evs sts (runS s₀ ops) ∧ evs.length ≤ stakeCallsAlong s₀ ops := kpath_runS ops s₀ hns
+
+/-- **PARTIAL (the induction over the calls, any exchange rate)**: along every slash-free history, for the staking
+calls `evs` it consists of (`history_is_path`): if account `k`'s validator is healthy at each call (tokens, shares, at most
+`ρ = p/q` tokens per raw share), then `k`'s exact stake has moved by the nominal amounts of the calls made for it
+(`nomPath`: `+` what was minted for it, `−` what was asked to be burnt from it — for delegate / undelegate exactly the
+risk-adjusted value of the lock, `delegate_moves_stake`, `undelegate_moves_stake`) up to `1 + ρ` tokens per CALL on its
+validator: `|drift| ≤ (#calls on the validator since the start) · (1 + ρ)`, with `#calls ≤ stakeCallsAlong`.
+
+FULL statement not proved at an exchange rate ≠ 1: the same with the nominal amounts replaced by the exact value
+`multiplier · total · (1 − riskFactor)` of the locks delegated through `k` (one more unit per stake-adjusting call, as in
+`drift_le_ops_since_refresh_partial` of the ledger model): what is missing is the bookkeeping, per entry point, that the
+nominal amount of its calls is the value of the amount by which the account's accumulation store moves — proved for the
+ledger model only (`moves_applyOp`), and transferred to the staking model at exchange rate one
+(`drift_between_epochs_staking_partial`). -/
+theorem stake_tracks_calls_along_history_partial {s₀ : SState} (ops : List OpS) (hns : ∀ op, op ∈ ops → isSlashOp op = false)
+    (k : AccKey) (hI : ShareInvV s₀.k k.2) {p q : Int} (hq : 0 < q) :
+    ∃ evs sts, KPath s₀ evs sts (runS s₀ ops) ∧ evs.length ≤ stakeCallsAlong s₀ ops ∧ callsOn k.2 evs ≤ evs.length ∧
+      ((∀ st, st ∈ sts → healthyRB p q k.2 st = true) →
+        -(callsOn k.2 evs : ℚ) * ((p : ℚ) / q + uQ / 2) ≤ stakeQ (runS s₀ ops).k k - stakeQ s₀.k k - (nomPath k evs sts : ℚ) ∧
+        stakeQ (runS s₀ ops).k k - stakeQ s₀.k k - (nomPath k evs sts : ℚ) ≤ (callsOn k.2 evs : ℚ) * ((p : ℚ) / q + 1)) := by
+  obtain ⟨evs, sts, hp, hl⟩ := kpath_runS ops s₀ hns
+  refine ⟨evs, sts, hp, hl, ?_, ?_⟩
+  · clear hp hl
+    induction evs with
+    | nil => simp [callsOn]
+    | cons ev r ih =>
+      show (if ev.key.2 = k.2 then 1 else 0) + callsOn k.2 r ≤ (ev :: r).length
+      simp only [List.length_cons]
+      split <;> omega
+  · intro hH
+    exact (kpath_stake hq hp hI (fun st hst => healthyR_of_B (hH st hst))).2
+
+/-! ### non-vacuity (exchange rate 7 : 5) -/
+
+/-- `wRate 7 5·10¹⁸ …` with a lock of 3 shares (worth 3 uosmo) that can be delegated to validator 0. -/
+def wD : SState :=
+  { (wRate 7 (5 * P18) (2 * P18) P18 0) with
+    b := { (wRate 7 (5 * P18) (2 * P18) P18 0).b with
+      locks := fun id => if id = 1 then some { owner := 0, denom := 0, amount := 3, single := true, duration := 100, endTime := none } else none,
+      lastLockId := 1 } }
+
+theorem wD_stkInv : StkInv wD.k :=
+  ⟨fun v => wR_shareInv 7 (5 * P18) (2 * P18) P18 0 (by decide) (by decide) (by decide +kernel) v,
+   fun _ => ⟨(by decide : (0 : Int) ≤ 7), (by decide : (0 : Int) ≤ 5 * P18)⟩⟩
+
+/-- `delegate_moves_stake` applies: the delegation mints 3 uosmo; the stake goes from 2.8 to 5.8 (2.142857… shares
+issued, floored: short by 10⁻¹⁸-ish). -/
+example : ∃ s', superfluidDelegateS wD 0 1 0 = .ok s' ∧ ∃ l amt, wD.b.locks 1 = some l ∧ osmoTokens wD.b l.denom l.amount = .ok amt ∧
+    stakeQ wD.k (l.denom, 0) + amt - rateQ wD.k 0 < stakeQ s'.k (l.denom, 0) ∧
+    stakeQ s'.k (l.denom, 0) ≤ stakeQ wD.k (l.denom, 0) + amt := by
+  obtain ⟨s', hs'⟩ := okS_ok (show okS (superfluidDelegateS wD 0 1 0) = true by decide +kernel)
+  exact ⟨s', hs', delegate_moves_stake (wD_stkInv.1 0) (by decide) (by decide +kernel) hs'⟩
+
+example : ((superfluidDelegateS wD 0 1 0).toOption.map fun s' => ((s'.k.val 0).tokens, (s'.k.val 0).shares, s'.k.dsh (0, 0))) =
+    some (10, 7142857142857142857, some 4142857142857142857) ∧ (osmoTokens wD.b 0 3).toOption = some 3 := by decide +kernel
+
+/-- a slash-free history over `wD` (delegate, then undelegate: two staking calls), and the invariant after a history
+WITH a slash. -/
+example : stakeCallsAlong wD [.base (.delegate 0 1 0), .base (.undelegate 0 1)] = 2 := by decide +kernel
+
+example : StkInv (runS wD [.base (.delegate 0 1 0), .slash 0 1 (P18 / 2) [], .base (.undelegate 0 1)]).k :=
+  staking_invariant_along_histories
+    (by
+      have h : Inv (wRate 7 (5 * P18) (2 * P18) P18 0).b := by
+        refine ⟨by decide, by decide, by decide, ?_, fun _ _ => rfl, ?_, ?_, ?_⟩
+        · intro d; show 0 ≤ (if d ≤ 1 then P18 else 0); split <;> decide
+        · intro id; simp [LockOK, wRate]
+        · intro id k hk; cases hk
+        · intro k
+          unfold sumConn
+          rw [sumTo_zero]
+          · show accFrom (if (SKind.bonding, k) = (SKind.bonding, ((0 : Nat), (0 : Nat))) then [(100, 0)] else []) 100 = 0
+            split <;> decide
+          · intro i _ _; exact connAmt_of_noconn rfl
+      -- adding a plain (unmarked, unconnected) lock keeps the invariant
+      refine ⟨h.rf0, h.rf1, h.ub0, h.mult0, ?_, ?_, ?_, ?_⟩
+      · intro id hid
+        show (if id = 1 then _ else none) = none
+        have : id ≠ 1 := by
+          rcases hid with hid | hid
+          · omega
+          · have : (1 : Nat) < id := hid; omega
+        rw [if_neg this]
+      · intro id
+        show LockOK 100 1 (if id = 1 then _ else none) [] none
+        split <;> simp [LockOK]
+      · intro id k hk; cases hk
+      · intro k
+        unfold sumConn
+        rw [sumTo_zero]
+        · show accFrom (if (SKind.bonding, k) = (SKind.bonding, ((0 : Nat), (0 : Nat))) then [(100, 0)] else []) 100 = 0
+          split <;> decide
+        · intro i _ _; exact connAmt_of_noconn rfl)
+    wD_stkInv _
 
 end OsmoVerif.Props.C11Refresh
